@@ -8,6 +8,8 @@ from .common import TRUSTED, Ctx
 def check(rep):
     ctx = Ctx(rep)
     LR.rule_lex_error_raises(ctx)
+    ctx.check_error_anchors()
+    GR.rule_accept_needs_end(ctx)
     GR.rule_parse_error_raises(ctx)
     GR.rule_no_error_productions(ctx)
     ER.rule_none_is_error(ctx)
